@@ -4105,7 +4105,7 @@ def speigs(a, charge_sector, k, *args, **kwargs):
         k = min(block_size, k)
         W = np.zeros(k, a.dtype)
         V_flat = np.zeros((block_size, k), a.dtype)
-        V_flat[:k, :k] = np.eye(k, a.dtype)  # chose standard basis as eigenvectors
+        V_flat[:k, :k] = np.eye(k, dtype=a.dtype)  # chose standard basis as eigenvectors
     # convert V_flat to npc Arrays and return
     if ret_eigv:
         V = []
